@@ -12,6 +12,69 @@ import os
 from .common import REPO, AnalysisError, repo_path
 
 
+def _specialise_factory(factory: ast.FunctionDef, call: ast.Call, name: str):
+    """The function a factory returns for one call with constant arguments, as a definition of its own: the factory's inner
+    ``def`` with the factory's parameters (and the locals computed from them before the ``def``) put in place.  None unless the
+    factory is of the simple shape: assignments, one inner def, attribute tweaks on it, ``return <that def>``."""
+    import copy
+    a = factory.args
+    if a.vararg or a.kwarg or any(not isinstance(x, ast.Constant) for x in call.args) or any(k.arg is None or not isinstance(k.value, ast.Constant) for k in call.keywords):
+        return None
+    params = [p.arg for p in a.posonlyargs + a.args]
+    if len(call.args) > len(params):
+        return None
+    env: dict = {}
+    defaults = dict(zip(params[len(params) - len(a.defaults):], a.defaults))
+    for p_, d in zip(a.kwonlyargs, a.kw_defaults):
+        if d is not None:
+            defaults[p_.arg] = d
+    for p_, v in zip(params, call.args):
+        env[p_] = v
+    for k in call.keywords:
+        env[k.arg] = k.value
+    for p_ in params + [x.arg for x in a.kwonlyargs]:
+        if p_ not in env:
+            if p_ not in defaults or not isinstance(defaults[p_], ast.Constant):
+                return None
+            env[p_] = defaults[p_]
+
+    class Sub(ast.NodeTransformer):
+        def __init__(self, shadow=()):
+            self.shadow = set(shadow)
+        def visit_Name(self, n):
+            if isinstance(n.ctx, ast.Load) and n.id in env and n.id not in self.shadow:
+                return ast.copy_location(copy.deepcopy(env[n.id]), n)
+            return n
+    inner = None
+    body = [s for s in factory.body if not (isinstance(s, ast.Expr) and isinstance(s.value, ast.Constant))]
+    for st in body:
+        if isinstance(st, ast.Assign) and len(st.targets) == 1 and isinstance(st.targets[0], ast.Name) and inner is None:
+            env[st.targets[0].id] = Sub().visit(copy.deepcopy(st.value))
+        elif isinstance(st, ast.FunctionDef) and inner is None:
+            inner = st
+        elif isinstance(st, ast.Assign) and inner is not None and all(isinstance(t, ast.Attribute) and isinstance(t.value, ast.Name) and t.value.id == inner.name for t in st.targets):
+            continue            # ``f.__name__ = ...``: naming only
+        elif isinstance(st, ast.Return) and inner is not None and isinstance(st.value, ast.Name) and st.value.id == inner.name:
+            break
+        else:
+            return None
+    else:
+        return None
+    if inner is None or inner.decorator_list:
+        return None
+    made = copy.deepcopy(inner)
+    made.name = name
+    own = {p.arg for p in made.args.posonlyargs + made.args.args + made.args.kwonlyargs}
+    own |= {n.id for n in ast.walk(made) if isinstance(n, ast.Name) and isinstance(n.ctx, ast.Store)}
+    made.body = [Sub(own).visit(st) for st in made.body]
+    ast.copy_location(made, call)
+    for x in ast.walk(made):
+        if not hasattr(x, "lineno"):
+            ast.copy_location(x, call)
+    ast.fix_missing_locations(made)
+    return made
+
+
 class FuncInfo:
     def __init__(self, module: "ModInfo", cls: "ClassInfo | None", node: ast.FunctionDef) -> None:
         self.module = module
@@ -221,6 +284,14 @@ class PyFacts:
 
         for st in m.tree.body:
             self._index_stmt(m, st, index_class)
+        # methods made by a factory called in the class body: ``match_EOF = _token_rule('EOF', matches_eof=True)``
+        for c in m.classes.values():
+            for name, val in list(c.class_attrs.items()):
+                if name in c.methods or not (isinstance(val, ast.Call) and isinstance(val.func, ast.Name) and val.func.id in m.functions):
+                    continue
+                made = _specialise_factory(m.functions[val.func.id].node, val, name)
+                if made is not None:
+                    c.methods[name] = FuncInfo(m, c, made)
         return m
 
     def _index_stmt(self, m: ModInfo, st: ast.stmt, index_class) -> None:
